@@ -35,12 +35,13 @@ Proof. exact StoreWrite.abort_post. Qed.
 Print Assumptions C13_abort_preserves_state.
 
 (* concurrent clause: in the concurrent model an abandoned transaction touches no shared state
-   (index, intents, CAS, version counter, locks) and no other thread, in every state; so a
+   (index, intents, CAS, version counter, locks) and no other thread, in every state, whatever the
+   fault parameters bad / ckbad; so a
    concurrent or later transaction on the same key is unaffected *)
 Theorem C13_abort_touches_nothing_shared :
-  forall H cmp nops g t ts k c rest,
+  forall H cmp nops bad ckbad g t ts k c rest,
     Conc.tget (Conc.g_thr g) t = Some ts -> Conc.t_pc ts = Conc.Idle -> Conc.t_calls ts = Conc.KAbort k c :: rest ->
-    exists g', Conc.cstep H cmp nops g t = Some g'
+    exists g', Conc.cstep H cmp nops bad ckbad g t = Some g'
       /\ ConcAbort.same_shared g g'
       /\ Conc.tget (Conc.g_thr g') t = Some (Conc.mkT rest Conc.Idle (Conc.t_res ts ++ [Conc.CUnit]))
       /\ (forall u, u <> t -> Conc.tget (Conc.g_thr g') u = Conc.tget (Conc.g_thr g) u).
